@@ -111,6 +111,9 @@ func (p *c09Prop) Gen(r *Rng, i int, tier string) interface{} {
 	case 6:
 		return &c09Case{Kind: "gated", Gated: "double-cleanup"}
 	case 7:
+		if i%16 == 15 {
+			return &c09Case{Kind: "gated", Gated: "cleanup-vs-retain"}
+		}
 		return &c09Case{Kind: "gated", Gated: "cleanup-vs-insert"}
 	}
 	c := &c09Case{Kind: "rounds"}
@@ -420,6 +423,13 @@ func (p *c09Prop) gatedRounds(kind string) []c09Round {
 			{Ops: []c01Op{{Op: "sub", F: "p/r", S: 3, QoS: 0, RH: 2}}, Probes: []string{"p/r", "p/q"}},
 			{Ops: []c01Op{{Op: "unsub", F: "p/q", S: 1}, {Op: "unsub", F: "p/q", S: 2}}, Probes: []string{"p/r", "p/q"}},
 		}
+	case "cleanup-vs-retain":
+		// UnSubscribe(s1, p/q) is held in OnCleanUnsubscribe (q marked, not yet unlinked); a retained publish to
+		// p/q arrives; s1 is released. The retained message must be there afterwards.
+		return []c09Round{
+			{Ops: []c01Op{{Op: "sub", F: "p/q", S: 1, QoS: 0, RH: 2}}},
+			{Ops: []c01Op{{Op: "unsub", F: "p/q", S: 1}, {Op: "ret", F: "p/q", Tag: 7, QoS: 1}}, RetQ: []string{"p/q", "#"}},
+		}
 	default: // cleanup-vs-insert
 		// UnSubscribe(s1, p/q) is held in OnCleanUnsubscribe (q marked, not yet unlinked); Subscribe(s2, p/q) and
 		// Subscribe(s3, p/q/z) arrive (they must wait for the unlink and start over); s1 is released.
@@ -513,6 +523,40 @@ func (p *c09Prop) runGated(c *c09Case) interface{} {
 			return obs
 		}
 		obs.Rounds = append(obs.Rounds, ro(probe("p/r"), probe("p/q")))
+	case "cleanup-vs-retain":
+		cleanGate, cleanReached = make(chan struct{}), make(chan struct{})
+		s1 := mk(1, 0)
+		_ = e.prov.Subscribe(subReq("p/q", s1, 0))
+		obs.Rounds = append(obs.Rounds, ro())
+		a1 := make(chan struct{})
+		go func() { _ = e.prov.UnSubscribe(topicsTypes.UnSubscribeReq{Filter: "p/q", S: s1}); close(a1) }()
+		if !wait(cleanReached, "the unsubscribe did not reach OnCleanUnsubscribe") {
+			return obs
+		}
+		m := mqttp.NewPublish(mqttp.ProtocolV311)
+		_ = m.Set("p/q", []byte{0, 7}, 1, true, false)
+		_ = e.prov.Retain(m)
+		time.Sleep(50 * time.Millisecond) // the retainer goroutine takes it up
+		close(cleanGate)
+		if !wait(a1, "unsubscribe not acknowledged") {
+			return obs
+		}
+		if !e.retBarrier() {
+			obs.Err = "retain barrier"
+			return obs
+		}
+		rq := func(f string) []int {
+			r, _ := e.prov.Retained(f)
+			t := []int{}
+			for _, m := range r {
+				if len(m.Payload()) >= 2 {
+					t = append(t, (int(m.Payload()[0])<<8|int(m.Payload()[1]))*4+int(m.QoS()))
+				}
+			}
+			sort.Ints(t)
+			return t
+		}
+		obs.Rounds = append(obs.Rounds, c09RoundObs{Pubs: [][]int{}, Probes: [][]int{}, RetQ: [][]int{rq("p/q"), rq("#")}})
 	default:
 		cleanGate, cleanReached = make(chan struct{}), make(chan struct{})
 		s1, s2, s3 := mk(1, 0), mk(2, 0), mk(3, 0)
